@@ -15,6 +15,7 @@ for both names (`hc`, `hw`).  That the server answers NXDOMAIN exactly when the 
 exist is C10's property; here the truth of the claim in `Z` is a hypothesis.
 -/
 import HickoryVerif.Proofs.C08Complete
+import HickoryVerif.Proofs.C08Refute
 import HickoryVerif.Proofs.C10Signed
 
 namespace HickoryVerif.C08
@@ -184,5 +185,70 @@ theorem completeness_partial {z : Zone} {o q : LName} {qtype : Nat} {Z : ZoneVie
       · exact absurd (wrap_of_next_lt hwl h) he
   exact completeness_nxdomain hwf hqb hapex hinq hZ hnq hce hnw hcm hcov
     (fun h => hnd c hcz hcty cn hcn h.1) hwm hwcov (fun h => hnd w hwz hwty wn hwn h.1)
+
+/-! ### non-vacuity of `completeness_partial` -/
+
+namespace ServerExample
+open FinZone
+
+def exL : LName := [[101, 120]]
+def aL : LName := [[97], [101, 120]]
+def bL : LName := [[98], [101, 120]]
+def cL : LName := [[99], [101, 120]]
+
+def nsecRR (owner next : LName) (types : List Nat) : RRset :=
+  { name := owner, type := T_NSEC, rdatas := [{ tag := 0, target := some next, types := types }],
+    sigLabels := some owner.length }
+
+/-- the store of the signed zone { ex. SOA NS, a.ex. A, c.ex. A } (only the RRsets that matter
+here: the A RRsets and the NSEC chain) -/
+def store : Zone :=
+  [{ name := aL, type := 1, rdatas := [{ tag := 1, target := none }], sigLabels := some 2 },
+   { name := cL, type := 1, rdatas := [{ tag := 1, target := none }], sigLabels := some 2 },
+   nsecRR exL aL [2, 6, 46, 47], nsecRR aL cL [1, 46, 47], nsecRR cL exL [1, 46, 47]]
+
+def zone : FinZone :=
+  { apex := [[101, 120]],
+    recs := [([[101, 120]], [2, 6, 46, 47]), ([[101, 120], [97]], [1, 46, 47]),
+             ([[101, 120], [99]], [1, 46, 47])] }
+
+/-- All hypotheses of `completeness_partial` hold together for the query b.ex. A against the
+signed zone above — and so does its conclusion: the two records `nsec_records` returns
+(`ex. NSEC a.ex.` for the parent, `a.ex. NSEC c.ex.` for the name) are accepted. -/
+theorem nonvacuous :
+    serverNsecs store exL bL =
+      [{ owner := asName exL, next := asName aL, types := [2, 6, 46, 47] },
+       { owner := asName aL, next := asName cL, types := [1, 46, 47] }] ∧
+    verifyNsec (asName bL) 1 (some (asName exL)) 3 [] (serverNsecs store exL bL) = .secure := by
+  refine ⟨by decide, ?_⟩
+  have hlinks : ∀ r ∈ store, r.type = T_NSEC → ∀ n, toNsec r = some n → LinkOf zone.view n := by
+    intro r hr hty n hn
+    simp only [store, List.mem_cons, List.not_mem_nil, or_false] at hr
+    rcases hr with rfl | rfl | rfl | rfl | rfl
+    · cases hty
+    · cases hty
+    all_goals
+      simp only [toNsec, nsecRR, List.head?_cons, Option.map_some, Option.some.injEq] at hn
+      subst hn
+      exact linkB_sound zone _ (by decide)
+  have hnd : ∀ r ∈ store, r.type = T_NSEC → ∀ n, toNsec r = some n →
+      ¬ IsAncestorDelegation n.types := by
+    intro r hr hty n hn
+    simp only [store, List.mem_cons, List.not_mem_nil, or_false] at hr
+    rcases hr with rfl | rfl | rfl | rfl | rfl
+    · cases hty
+    · cases hty
+    all_goals
+      simp only [toNsec, nsecRR, List.head?_cons, Option.map_some, Option.some.injEq] at hn
+      subst hn
+      decide
+  have hnq : ¬ zone.view.Exists (K (asName bL)) := by rw [exists_iff]; decide
+  have hnw : ¬ zone.view.Exists (K (asName bL.tail) ++ [Spec.STAR]) := by rw [exists_iff]; decide
+  exact completeness_partial (Z := zone.view) (c := nsecRR aL cL [1, 46, 47])
+    (w := nsecRR exL aL [2, 6, 46, 47]) (by decide) (by decide) (by decide) (by decide) (by decide)
+    hlinks (by decide) (by decide) hnq (closestEncloserB_sound zone _ _ (by decide)) hnw
+    (forall_hasData zone _ (by decide)) hnd
+
+end ServerExample
 
 end HickoryVerif.C08
